@@ -157,6 +157,11 @@ func (g *G) ethernet() (*protocol.Ethernet, string) {
 		if e.Ethertype == 0x8100 || e.Ethertype == 0x0800 || e.Ethertype == 0x86dd || e.Ethertype == 0x0806 {
 			e.Ethertype = 0x88cc
 		}
+		if (e.VLANID.VID != 0 || e.VLANID.PCP != 0 || e.VLANID.DEI != 0) && g.r.Intn(4) == 0 {
+			// stacked tags (QinQ): behind the first tag comes another tag protocol id; the rest is opaque
+			e.Ethertype = []uint16{0x8100, 0x88a8}[g.r.Intn(2)]
+			kind += "-stacked"
+		}
 		e.Data = util.NewBuffer(g.r.Bytes(g.r.Geom(20, 100)))
 		kind += "/opaque"
 	}
